@@ -30,7 +30,7 @@ ASSUMPTIONS = [
     'an operation hit by an injected fault may raise the injected exception or a DB-API Error, or return the reference result - never different data',
     'today(), joinstr() and repr() are excluded from workloads (clock, hash-order, addresses)',
 ]
-PROBES = ['ast_reexecuted', 'ast_reexecuted_after_failure', 'ast_reexecuted_other_params', 'executemany_multi',
+PROBES = ['table_content_replaced', 'ledger_replaced', 'ast_reexecuted', 'ast_reexecuted_after_failure', 'ast_reexecuted_other_params', 'executemany_multi',
           'nested_execution', 'nested_same_ast', 'late_table_retry', 'positional_ge2', 'named_repeated', 'placeholder_in_subquery',
           'placeholder_in_order_by', 'fault_then_execute', 'fold_pair_compared', 'literal_twin_compared', 'from_clause_then_plain',
           'balance_stmt_nested_in_balance_stmt']
@@ -64,6 +64,15 @@ PARAM_TEMPLATES = [
     ('SELECT verif_fault(a, 0) AS f, {0} - a AS x FROM #t0', ['int'], ('fault',)),
     ('SELECT a, a * {0} AS y FROM #t1 WHERE a != {1}', ['int', 'int'], ('late',)),
     ('SELECT {0} AS p, {0} AS q, a - {1} AS r, {1} - a AS s FROM #t0', ['int', 'int'], ('repeat',)),
+    # textual order differs from the order in which the compiler visits the clauses (FROM first, ORDER BY last)
+    ('SELECT {0} AS k, x FROM (SELECT a AS x FROM #t0 WHERE a > {1}) WHERE x < {2}', ['int', 'int', 'int'], ('subq', 'clauseorder')),
+    ('SELECT {0} AS tag, account, number FROM year = {1} WHERE number > {2}', ['str', 'year', 'dec'], ('from', 'clauseorder')),
+    ('SELECT {0} - a AS x, count(a) AS n FROM #t0 WHERE a < {1} GROUP BY x HAVING count(a) > {2} ORDER BY {3} - x', ['int', 'int', 'int', 'int'],
+     ('order', 'clauseorder')),
+    ('SELECT a, {0} AS k FROM #t0 WHERE a IN (SELECT a - {1} FROM #t0 WHERE a > {2}) ORDER BY a % {3}, a', ['str', 'int', 'int', 'pint'],
+     ('subq', 'order', 'clauseorder')),
+    ('SELECT entry_meta({0}) AS m, account, {1} AS k WHERE number > {2}', ['metakey', 'int', 'dec'], ('clauseorder',)),
+    ('SELECT any_meta({0}) AS m, {1} AS k, meta({2}) AS n WHERE account ~ {3}', ['metakey', 'str', 'metakey', 'acct'], ('clauseorder',)),
 ]
 
 PLAIN = [
@@ -108,6 +117,10 @@ FOLD_EXPRS = [
     ('int({0}) + {1}', ['dec', 'int']), ('coalesce({0}, {1})', ['int', 'int']), ('{0} IN (1, 2, 3)', ['int']),
     ('{0} BETWEEN {1} AND {2}', ['int', 'int', 'int']), ('root({0}, {1})', ['acct', 'pint']), ('leaf({0})', ['acct']),
     ('parent({0})', ['acct']), ('date({0}, {1}, {2})', ['year', 'month', 'pday']), ('{0} AND {1} OR NOT {2}', ['bool', 'bool', 'bool']),
+    # boolean connectives do not depend on operand types, so NULL constants are safe here (three-valued logic)
+    ('{0} AND {1}', ['nbool', 'nbool']), ('{0} OR {1}', ['nbool', 'nbool']), ('{0} AND {1} AND {2}', ['nbool', 'nbool', 'nbool']),
+    ('{0} OR {1} OR {2}', ['nbool', 'nbool', 'nbool']), ('NOT ({0} AND {1}) OR {2}', ['nbool', 'nbool', 'nbool']),
+    ('({0} OR {1}) AND NOT {2}', ['nbool', 'nbool', 'nbool']), ('{0} AND ({1} < {2})', ['nbool', 'int', 'int']),
 ]
 
 
@@ -126,11 +139,15 @@ def gen_slot(rng, t):
         return rng.sample(['a', 'b', 'abc', 'zz', 'x y', 'USD'], rng.randint(1, 3))
     if t == 'null':
         return None
+    if t == 'metakey':
+        return rng.choice(['lineno', 'nosuchkey', 'filename'])
+    if t == 'nbool':
+        return rng.choice([True, False, None])
     return world.gen_value(rng, t)
 
 
 def base_type(t):
-    return {'pint': 'int', 'acct': 'str', 'year': 'int', 'month': 'int', 'pday': 'int'}.get(t, t)
+    return {'pint': 'int', 'acct': 'str', 'year': 'int', 'month': 'int', 'pday': 'int', 'nbool': 'bool', 'metakey': 'str'}.get(t, t)
 
 
 def render(template, mode, vals, names=None):
@@ -195,6 +212,8 @@ def generate(rng, tier, run):
     nrows = rng.randint(0, 8 if not big else 16)
     t0 = world.gen_table(rng, 't0', nrows=nrows, cols=T0_COLS, nullable=0.12)
     t1 = world.gen_table(rng, 't1', nrows=rng.randint(0, 5), cols=T0_COLS[:2], nullable=0.0)
+    t1b = world.gen_table(rng, 't1', nrows=rng.randint(1, 6), cols=T0_COLS[:2], nullable=0.0)
+    ledger2 = world.gen_ledger(rng, n_txn=rng.randint(1, 5))
     ledger = world.gen_ledger(rng, n_txn=rng.randint(2, 8 if not big else 14))
     # statement pool of this world
     pool = []
@@ -250,7 +269,8 @@ def generate(rng, tier, run):
                 ops.append({'op': 'fold', 'expr': tpl, 'types': [base_type(t) for t in types_],
                             'vals': [world.enc(gen_slot(rng, t)) for t in types_], 'real_parse': rng.random() < 0.05})
             elif kind == 'tables':
-                ops.append({'op': rng.choice(['register', 'register', 'unregister'])})
+                ops.append(rng.choice([{'op': 'register', 'variant': 0}, {'op': 'register', 'variant': 1}, {'op': 'unregister'},
+                                       {'op': 'attach', 'ledger': rng.choice([0, 1])}]))
             else:
                 i = rng.randrange(len(pool))
                 mode = rng.choice(['pos', 'named', 'lit']) if pool[i]['types'] else 'lit'
@@ -292,7 +312,7 @@ def generate(rng, tier, run):
                 {'op': 'exec_ast', 'h': handle_no, 'stmt': j, 'mode': mode,
                  'vals': [world.enc(v) for v in gen_vals(rng, pool[j])]} for _ in range(rng.randint(1, 3))]
     return {
-        'world': {'ledger': ledger, 'tables': [t0], 'late': t1, 'stmts': pool},
+        'world': {'ledger': ledger, 'ledger2': ledger2, 'tables': [t0], 'late': t1, 'late2': t1b, 'stmts': pool},
         'clients': clients,
         'nested': nested,
         'schedule': sim.interleave(rng, [len(c['ops']) for c in clients]),
@@ -336,19 +356,24 @@ def execute(case, keep_log=False):
         conn = world.make_connection(W['ledger'], W['tables'], copy=0)
         entries0 = conn.tables['postings'].entries
         entries_repr0 = world.load_ledger(W['ledger'], 0)[3]
-        late_registered = [False]
+        late_registered = [None]      # None | 0 | 1: which variant of #t1 is registered
+        cur_ledger = [0]
+        ledgers = [W['ledger'], W.get('ledger2', W['ledger'])]
         refmemo = {}
 
+        def late_spec():
+            return W['late'] if late_registered[0] in (0, True) else W.get('late2', W['late'])
+
         def tableset():
-            return W['tables'] + ([W['late']] if late_registered[0] else [])
+            return W['tables'] + ([late_spec()] if late_registered[0] is not None else [])
 
         def reference(text, params, mk=None, how='text'):
             """The same call in a fresh world.  `mk` builds the AST when the statement is a
             literal rendering obtained by substitution (how='sub'); otherwise a fresh parse/clone of `text`."""
-            key = (text, core.jdump(world.enc(params)) if params is not None else None, late_registered[0], how)
+            key = (text, core.jdump(world.enc(params)) if params is not None else None, late_registered[0], how, cur_ledger[0])
             if key not in refmemo:
                 with world.reference_mode():
-                    rc = world.make_connection(W['ledger'], tableset(), copy=1)
+                    rc = world.make_connection(ledgers[cur_ledger[0]], tableset(), copy=1)
                     refmemo[key] = guarded(lambda: run_stmt(rc, mk() if mk is not None else stmts.fresh_ast(text),
                                                             copy.deepcopy(params)))
             return refmemo[key]
@@ -438,7 +463,7 @@ def execute(case, keep_log=False):
             elif flags['from_seen'] and not st['types'] and 'bad' not in st['tags']:
                 S.probes['from_clause_then_plain'] += 1
             if 'late' in st['tags']:
-                if not late_registered[0]:
+                if late_registered[0] is None:
                     flags['late_failed'] = True
                 elif flags['late_failed']:
                     S.probes['late_table_retry'] += 1
@@ -620,24 +645,42 @@ def execute(case, keep_log=False):
                 else:
                     S.probes['fold_pair_skipped_error'] += 1
             elif k == 'register':
-                conn.tables['t1'] = world.SimTable(W['late'])
-                late_registered[0] = True
-                log.add(where, 'register')
+                v = op.get('variant', 0)
+                if late_registered[0] is not None and late_registered[0] != v:
+                    S.probes['table_content_replaced'] += 1
+                late_registered[0] = v
+                conn.tables['t1'] = world.SimTable(late_spec())
+                log.add(where, 'register', v)
             elif k == 'unregister':
                 conn.tables.pop('t1', None)
-                late_registered[0] = False
+                late_registered[0] = None
                 log.add(where, 'unregister')
+            elif k == 'attach':
+                # the data changes under the same connection: every later result must reflect the new ledger
+                li = op.get('ledger', 0) if 'ledger2' in W else 0
+                if li != cur_ledger[0]:
+                    S.probes['ledger_replaced'] += 1
+                cur_ledger[0] = li
+                e2, err2, opt2, _ = world.load_ledger(ledgers[li], 0)
+                conn.attach('beancount:', entries=e2, errors=err2, options=opt2)
+                conn.tables['postings'] = world.SimPostings(e2, opt2)
+                conn.tables['entries'] = world.SimEntries(e2, opt2)
+                log.add(where, 'attach', li)
             else:
                 raise core.HarnessError(k)
 
         # executing never mutates the source data
-        if conn.tables['postings'].entries is not entries0 or repr(entries0) != entries_repr0:
+        if repr(entries0) != entries_repr0:
             violation('source-data-mutated', 'end', {'op': 'end'}, 'entries unchanged', 'entries changed')
+        if 'ledger2' in W:
+            e2, _, _, r2 = world.load_ledger(W['ledger2'], 0)
+            if repr(e2) != r2:
+                violation('source-data-mutated', 'end', {'op': 'end'}, 'entries unchanged', 'entries of second ledger changed')
         t0live = conn.tables.get('t0')
         if t0live is not None and t0live.rows != [tuple(world.dec(x) for x in r) for r in W['tables'][0]['rows']]:
             violation('source-data-mutated', 'end', {'op': 'end'}, 'table rows unchanged', 'table rows changed')
         expected_tables = {'', 'accounts', 'balances', 'commodities', 'documents', 'entries', 'events', 'notes', 'postings',
-                           'prices', 'transactions', 't0'} | ({'t1'} if late_registered[0] else set())
+                           'prices', 'transactions', 't0'} | ({'t1'} if late_registered[0] is not None else set())
         if set(conn.tables) != expected_tables:
             violation('tables-changed', 'end', {'op': 'end'}, sorted(expected_tables), sorted(conn.tables))
         stats['nontrivial'] = bool((flags['reuse'] or flags['many'] or flags['nested']) and len(executed_texts) >= 2)
